@@ -18,6 +18,9 @@
 #include <kernel/global/vector.hpp>
 #include <kernel/global/filter.hpp>
 #include <kernel/lafem/vector_mirror.hpp>
+#include <kernel/lafem/tuple_mirror.hpp>
+#include <kernel/global/matrix.hpp>
+#include <kernel/util/property_map.hpp>
 
 using namespace c08b;
 
@@ -158,6 +161,109 @@ namespace
     }
   }
 
+  // ------------------------------------------------------------------------------------------ Uzawa specialisation for Global:: containers (one process)
+  struct GUzawaBox
+  {
+    typedef LAFEM::SparseMatrixCSR<double, Index> M;
+    typedef LAFEM::DenseVector<double, Index> V;
+    typedef LAFEM::VectorMirror<double, Index> Mir;
+    typedef LAFEM::TupleVector<V, V> TV;
+    typedef LAFEM::TupleMirror<Mir, Mir> TMir;
+    typedef LAFEM::UnitFilter<double, Index> FV;
+    typedef LAFEM::NoneFilter<double, Index> FP;
+    typedef Global::Gate<V, Mir> Gate1;
+    typedef Global::Gate<TV, TMir> GateS;
+    typedef Global::Matrix<M, Mir, Mir> GM;
+    typedef Global::Vector<V, Mir> GV1;
+    typedef Global::Vector<TV, TMir> GVS;
+    const Saddle& S; int svar;
+    Dist::Comm comm; Gate1 gate_v, gate_p; GateS gate_s;
+    GM ga, gb, gd; M mat_s;
+    Global::Filter<FV, Mir> gfv; Global::Filter<FP, Mir> gfp;
+    FP lnone;
+    std::shared_ptr<Solver::SolverBase<GV1>> solver_s;
+    std::shared_ptr<Solver::SolverBase<GVS>> prec;
+    bool auto_init_s = true;
+    static FV mkf(const Saddle& s, const std::vector<char>& fx) { FV f{Index(s.nvb)}; for(int i = s.nvb - 1; i >= 0; --i) if(fx[i]) f.add(Index(i), 0.0); return f; }
+    GUzawaBox(const Saddle& s, const std::vector<char>& fixed_vb, int svar_) : S(s), svar(svar_), comm(Dist::Comm::world()), gate_v(comm), gate_p(comm), gate_s(comm),
+      ga(&gate_v, &gate_v, SaddleBox<1>::make_block<M>(s.nvb, s.nvb, s.pa)), gb(&gate_v, &gate_p, SaddleBox<1>::make_block<M>(s.nvb, s.np, s.pb)),
+      gd(&gate_p, &gate_v, SaddleBox<1>::make_block<M>(s.np, s.nvb, s.pd)), gfv(mkf(s, fixed_vb)), gfp()
+    {
+      gate_v.compile(V(Index(s.nvb))); gate_p.compile(V(Index(s.np))); gate_s.compile(TV(V(Index(s.nvb)), V(Index(s.np))));
+      const Index np = Index(s.np);
+      mat_s = M(np, np, np * np);
+      Index q = 0;
+      for(int i = 0; i < s.np; ++i) { mat_s.row_ptr()[i] = q; for(int j = 0; j < s.np; ++j) mat_s.col_ind()[q++] = Index(j); }
+      mat_s.row_ptr()[s.np] = q;
+      set_values(0);
+    }
+    void set_values(int ver)
+    {
+      const int nv = S.nv, N = S.N; const std::vector<LD>& k = S.K.k[ver];
+      auto fill = [&](M& m, int roff, int coff) { for(Index i = 0; i < m.rows(); ++i) for(Index p2 = m.row_ptr()[i]; p2 < m.row_ptr()[i + 1]; ++p2) m.val()[p2] = double(k[size_t(roff + int(i)) * N + coff + int(m.col_ind()[p2])]); };
+      fill(ga.local(), 0, 0); fill(gb.local(), 0, nv); fill(gd.local(), nv, 0);
+      const std::vector<LD> sm = make_s(S, ver, svar); for(size_t i = 0; i < sm.size(); ++i) mat_s.val()[i] = double(sm[i]);
+    }
+    std::vector<double> apply(const LVec& d, double prefill, Status& st, bool& unch)
+    {
+      GVS vin(&gate_s, V(Index(S.nvb)), V(Index(S.np))), vout(&gate_s, V(Index(S.nvb)), V(Index(S.np)));
+      std::vector<double> din(S.N);
+      for(int i = 0; i < S.N; ++i) din[i] = double(d[i]);
+      double* iv = vin.local().at<0>().elements(); double* ip = vin.local().at<1>().elements();
+      double* ov = vout.local().at<0>().elements(); double* op = vout.local().at<1>().elements();
+      for(int i = 0; i < S.nv; ++i) { iv[i] = din[i]; ov[i] = prefill; }
+      for(int i = 0; i < S.np; ++i) { ip[i] = din[S.nv + i]; op[i] = prefill; }
+      st = prec->apply(vout, vin);
+      unch = (std::memcmp(iv, din.data(), sizeof(double) * size_t(S.nv)) == 0) && (std::memcmp(ip, din.data() + S.nv, sizeof(double) * size_t(S.np)) == 0);
+      std::vector<double> out(S.N);
+      for(int i = 0; i < S.nv; ++i) out[i] = ov[i];
+      for(int i = 0; i < S.np; ++i) out[S.nv + i] = op[i];
+      return out;
+    }
+  };
+
+  void uzawa_global_cases(verif::Ctx& c, int lc_depth)
+  {
+    typedef GUzawaBox Box;
+    const std::vector<Layout> lays = layouts();
+    for(size_t li = 0; li < lays.size(); ++li)
+    for(int type = 0; type < 4; ++type) for(int svar = 0; svar < 2; ++svar) for(int autos = 0; autos < 2; ++autos) for(int fix = 0; fix < 2; ++fix)
+    {
+      if(!c.want()) continue;
+      const Layout& L = lays[li];
+      auto S = std::make_shared<Saddle>(); S->build(L, 1, int(li % 2));
+      std::vector<char> fixed_vb(L.nvb, 0); if(fix) fixed_vb[0] = 1;
+      const std::vector<char> fixed = fixed_scalar(*S, fixed_vb);
+      const std::string kname = std::string("Uzawa ") + UN[type] + " Global::";
+      const std::string where = kname + " layout=[" + L.name + "] S=" + (svar ? "-D A^-1 B" : "generic") + " auto_init_s=" + std::to_string(autos) + " filter=" + (fix ? "Unit{0}" : "none");
+      c.desc([&]{ return where; });
+      c.nontrivial(verif::Hash().str("guzawa").pod(li).pod(type).pod(svar).pod(autos).pod(fix).get());
+      c.outcome(std::string("Uzawa Global:: ") + UN[type]);
+      Factory make = [=]() -> Live
+      {
+        auto box = std::make_shared<Box>(*S, fixed_vb, svar);
+        box->auto_init_s = (autos != 0);
+        // exact sub-solvers: Schwarz(complete ILU) on the local blocks; the global velocity filter is applied by Schwarz
+        auto solver_a = Solver::new_schwarz_precond(Solver::new_ilu_precond(PreferredBackend::generic, box->ga.local(), box->lnone, S->nvb), box->gfv);
+        box->solver_s = Solver::new_schwarz_precond(Solver::new_ilu_precond(PreferredBackend::generic, box->mat_s, box->lnone, S->np), box->gfp);
+        box->prec = Solver::new_uzawa_precond(box->ga, box->gb, box->gd, box->gfv, box->gfp,
+          std::shared_ptr<Solver::SolverBase<Box::GV1>>(solver_a), box->solver_s, UT[type], autos != 0);
+        Live l; Box* b = box.get();
+        l.keep = std::shared_ptr<void>(new std::pair<std::shared_ptr<Saddle>, std::shared_ptr<Box>>(S, box), [](void* p){ delete static_cast<std::pair<std::shared_ptr<Saddle>, std::shared_ptr<Box>>*>(p); });
+        l.init_symbolic = [b]{ if(!b->auto_init_s) b->solver_s->init_symbolic(); b->prec->init_symbolic(); };
+        l.init_numeric = [b]{ if(!b->auto_init_s) b->solver_s->init_numeric(); b->prec->init_numeric(); };
+        l.done_numeric = [b]{ b->prec->done_numeric(); if(!b->auto_init_s) b->solver_s->done_numeric(); };
+        l.done_symbolic = [b]{ b->prec->done_symbolic(); if(!b->auto_init_s) b->solver_s->done_symbolic(); };
+        l.update = [b](int v){ b->set_values(v); };
+        l.apply = [b](const LVec& d, double pf, Status& st, bool& u){ return b->apply(d, pf, st, u); };
+        l.hash_state = [b](verif::Hash& h){ for(auto* m : {&b->ga.local(), &b->gb.local(), &b->gd.local(), &b->mat_s}) h.bytes(m->val(), sizeof(double) * size_t(m->used_elements())); };
+        return l;
+      };
+      OracleFn orc = [=](int v, const LVec& d, LVec& out) { return oracle_uzawa(*S, v, svar, type, fixed, d, out); };
+      run_subject(c, S->N, kname, where, make, orc, true, lc_depth, 1e-9L);
+    }
+  }
+
   // ------------------------------------------------------------------------------------------ Schwarz
   struct SchwarzBox
   {
@@ -222,9 +328,18 @@ namespace
             if(cfg.kind == K_JACOBI) local = Solver::new_jacobi_precond(box->mat, box->lfil, cfg.omega);
             else if(cfg.kind == K_SSOR) local = Solver::new_ssor_precond(PreferredBackend::generic, box->mat, box->lfil, cfg.omega);
             else local = Solver::new_ilu_precond(PreferredBackend::generic, box->mat, box->lfil, cfg.ip);
-            auto sw = Solver::new_schwarz_precond(local, box->gfil);
-            sw->set_ignore_status(ign != 0);
-            box->prec = sw;
+            // configuration of ignore_status: by the setter (even configurations) or from a PropertyMap section (odd ones)
+            if(ci & 1u)
+            {
+              PropertyMap pm; pm.add_entry("ignore_status", ign ? "yes" : "no");
+              box->prec = Solver::new_schwarz_precond("verif", &pm, local, box->gfil);
+            }
+            else
+            {
+              auto sw = Solver::new_schwarz_precond(local, box->gfil);
+              sw->set_ignore_status(ign != 0);
+              box->prec = sw;
+            }
             Live l; SchwarzBox* b = box.get();
             l.keep = std::shared_ptr<void>(new std::pair<std::shared_ptr<Oracle>, std::shared_ptr<SchwarzBox>>(orc, box), [](void* p){ delete static_cast<std::pair<std::shared_ptr<Oracle>, std::shared_ptr<SchwarzBox>>*>(p); });
             l.init_symbolic = [b]{ b->prec->init_symbolic(); }; l.init_numeric = [b]{ b->prec->init_numeric(); };
@@ -249,7 +364,7 @@ int main(int argc, char** argv)
   verif::Spec spec; spec.property = "C08"; spec.harness = "c08_uzawa";
   spec.rule = "Uzawa: case = (velocity block size {1,2}, element layout, A-diagonal variant, Uzawa type (4), S {generic, exact Schur complement}, auto_init_s, velocity unit filter) with complete-ILU "
     "sub-solvers vs the block formulas of the class documentation in dense long double. Schwarz: case = (n, off-diagonal pattern, local solver Jacobi/SSOR/ILU(p) + parameter, global unit filter set, "
-    "ignore_status) on Global:: containers over one process vs the textbook operator of the local solver followed by the filter. Both: all unit vectors + a dense vector, output prefill, input "
+    "ignore_status by setter / PropertyMap) on Global:: containers over one process; Uzawa additionally in its specialisation for Global::Matrix/Filter/Vector (scalar blocks, Schwarz(ILU) sub-solvers) vs the textbook operator of the local solver followed by the filter. Both: all unit vectors + a dense vector, output prefill, input "
     "unchanged, linearity, life-cycle BFS of c08_block.hpp (value updates change A, B, D and S)";
   spec.bounds_quick = "Uzawa: 7 layouts x 2 diagonal variants x 4 types x 2 S x auto_init_s {0,1} x filter {none, Unit{0}} x block size {1,2}; Schwarz: n 2..4 (all 4 patterns of n=2, every 5th of n=3, "
     "every 397th of n=4 + full), Jacobi/SSOR omega {1,1/2}, ILU p {0,n}, 3 filter sets, ignore_status {0,1}; life-cycle depth 12";
@@ -263,6 +378,7 @@ int main(int argc, char** argv)
     const int lc_depth = c.thorough ? 14 : 12;
     uzawa_cases<1>(c, lc_depth);
     uzawa_cases<2>(c, lc_depth);
+    uzawa_global_cases(c, lc_depth);
     schwarz_cases(c, lc_depth);
   });
 }
